@@ -694,6 +694,8 @@ class Interp(object):
                 cur = get_path(self.read_cell(st, cell), path)
                 if isinstance(cur, Ptr):
                     continue  # Box / Vec internals
+                if isinstance(cur, Opaque) and cur.kind == "uninit":
+                    continue  # MaybeUninit / ManuallyDrop wrappers are transparent
                 path = path + (e["i"],)
                 off = 0
             elif k == "index":
@@ -780,6 +782,9 @@ class Interp(object):
                 u = o["uneval"]
                 if u["promoted"] is not None:
                     return self.eval_promoted(fr, u)
+                if u["path"].endswith("SizedTypeProperties::ALIGN") or u["path"].endswith("SizedTypeProperties::SIZE"):
+                    # only feed the debug-build pointer checks of vec![..]; any non-zero power of two works
+                    return W(ty.get("w", 64), val=1)
                 if o.get("val") is not None:
                     ck = ("const", u["key"])
                     if ck not in self.promoted_cache:
@@ -882,6 +887,9 @@ class Interp(object):
                     if isinstance(target, Arr):
                         return Ptr(v.cell, v.path, (0, len(target.elems)), v.kind)
                 return v
+            if kind == "Transmute" and isinstance(v, Ptr) and ty["k"] in ("uint", "int"):
+                # address of an allocation: non-null and maximally aligned (only used by debug pointer checks)
+                return W(ty["w"], val=0x10000 * (v.cell + 1))
             if kind in ("Transmute", "PtrToPtr") or kind.startswith("PointerCoercion"):
                 return v
             raise Undecided("cast " + kind)
@@ -1189,6 +1197,54 @@ class Interp(object):
 
     join_on_top = False
     uf_fallback = False
+    call_hook = None
+    memo_pure = False
+    _memo = {}
+
+    def call_memo(self, body, args, st, env, fr, pc):
+        """pure function of concrete scalars: evaluate once (constant folding), reuse the result"""
+        key = (id(self.facts), body["key"], tuple((x.width, x.val) for x in args), tuple(sorted((k, v) for k, v in env.items() if isinstance(v, int))))
+        hit = Interp._memo.get(key)
+        if hit is None:
+            st2 = State()
+            outs = self.call_mir(body, body["mir"], args, st2, env, fr.depth + 1, ())
+            if len(outs) != 1 or outs[0].kind != "return":
+                Interp._memo[key] = "no"
+                return self.call_mir(body, body["mir"], args, st, env, fr.depth + 1, pc)
+            o = outs[0]
+            cells = {}
+
+            def collect(v):
+                if isinstance(v, Ptr):
+                    if v.cell not in cells and v.cell in o.state.mem:
+                        cells[v.cell] = o.state.mem[v.cell]
+                        collect(cells[v.cell])
+                elif isinstance(v, (Agg,)):
+                    for f in v.fields:
+                        collect(f)
+                elif isinstance(v, Arr):
+                    for f in v.elems:
+                        collect(f)
+            collect(o.value)
+            hit = (o.value, cells)
+            Interp._memo[key] = hit
+        if hit == "no":
+            return self.call_mir(body, body["mir"], args, st, env, fr.depth + 1, pc)
+        value, cells = hit
+        # fresh copies of the cells so that callers may mutate the result
+        ren = {c: new_cell() for c in cells}
+
+        def rn(v):
+            if isinstance(v, Ptr):
+                return Ptr(ren.get(v.cell, v.cell), v.path, v.sl, v.kind)
+            if isinstance(v, Agg):
+                return Agg(v.kind, v.key, v.variant, [rn(f) for f in v.fields])
+            if isinstance(v, Arr):
+                return Arr([rn(f) for f in v.elems])
+            return v
+        for c, content in cells.items():
+            st.mem[ren[c]] = rn(content)
+        return self.ret(st, pc, rn(value))
     prune = False
 
     def uf_arg(self, a, st):
@@ -1239,6 +1295,12 @@ class Interp(object):
             env = self.callee_env(fr, body, r["args"])
             if body["kind"] == "Closure":
                 return self.call_closure(body, args, st, fr, pc)
+            if self.call_hook is not None:
+                hooked = self.call_hook(self, body, args, st, pc)
+                if hooked is not None:
+                    return hooked
+            if self.memo_pure and args and all(isinstance(x, W) and x.val is not None for x in args):
+                return self.call_memo(body, args, st, env, fr, pc)
             if self.uf_fallback and not any(ty["k"] == "ref" and ty["mut"] and ty["t"].get("path") != "std::fmt::Formatter" for ty in (body.get("sig") or {}).get("inputs", [{"k": "ref", "mut": True, "t": {}}])):
                 # a callee that only reads its arguments may be kept as an uninterpreted function
                 # of its (abstract) arguments when it cannot be modelled
